@@ -478,6 +478,9 @@ def verify_contract(job: Tuple[str, int]) -> Dict[str, Any]:
         node, seg, sha, lineno = extract.find(c.file, c.qualname)
         out.update(source_hash=sha, lineno=lineno, source_lines=seg.count("\n") + 1)
     except (extract.NotFound, OSError, SyntaxError) as exc:
+        if c.assumed:
+            out.update(status="assumed", reason=c.why_assumed + " [no explicit definition in the source: generated or library code]")
+            return out
         out.update(status="not_found", reason=str(exc))
         return out
     if c.assumed:
